@@ -458,7 +458,606 @@ template<int D, bool S>
     });
 }
 
+// ---------------------------------------------------------------------------------------------
+// unary operators, shifts, conversions, text, numeric_limits
+
+using WideToInts = types<bool, i8, u8, i16, u16, i32, u32, i64, u64, i128, u128>;
+using WideFromInts = types<i8, u8, i16, u32, i64, u64, i128, u128>;
+
+template<int D, bool S>
+[[gnu::noinline]] static void prog_wide_unary()
+{
+    std::string const pname = std::string("wide_unary<") + std::to_string(D) + (S ? ",signed>" : ",unsigned>");
+    if (!vf::begin(pname, false)) return;
+    WideCfg cfg = wide_cfg(D);
+    std::vector<BigW> const VA = common_values(D + int(S), S, cfg.k, cfg.few_positions);
+    std::vector<BigW> const VB = cfg.k == 1 ? VA : common_values(D + int(S), S, 1, cfg.few_positions);
+    auto in_vb = [&](BigW const& x) { return std::binary_search(VB.begin(), VB.end(), x, BigWLess()); };
+    constexpr int DB = D + int(S);
+    std::vector<int> counts;
+    for (int c : {0, 1, 2, 3, 7, 8, 9, 15, 16, 17, 31, 32, 33, 63, 64, 65, 127, 128, 129, D / 2, D - 1, D, D + 1, D + 7, D + 8, D + 15, D + 31, D + 63})
+        if (c >= 0 && std::find(counts.begin(), counts.end(), c) == counts.end()) counts.push_back(c);
+    std::sort(counts.begin(), counts.end());
+
+    // ---- static facts: numeric_limits, operators that do not compile
+    if (vf::my_row() && (!vf::replaying() || vf::case_selected("type"))) {
+        report_uninstantiable<D, S>("unary");
+#if !C10_HAVE_PUBLIC_NOT
+        if (D > (S ? 127 : 128)) {
+            vf::counted(true);
+            vf::outcome("operator_does_not_compile");
+            vf::violation("not/ill_formed", "type", std::string("~cnl::wide_integer<") + std::to_string(D) + (S ? ",signed" : ",unsigned") + ">{} does not compile: bitwise_not_op applies ~ to a const multi-limb rep whose operator~ is a non-const, mutating member (try-compile failed)");
+        }
+#endif
+        if (!(S ? bool(C10_HAVE_TO_CHARS_SIGNED) : bool(C10_HAVE_TO_CHARS_UNSIGNED)) && D > (S ? 127 : 128)) {
+            vf::counted(true);
+            vf::outcome("operator_does_not_compile");
+            vf::violation("text/to_chars/ill_formed", "type", std::string("cnl::to_chars(first, last, cnl::wide_integer<") + std::to_string(D) + (S ? ",signed" : ",unsigned") + ">) does not compile: to_chars_natural computes value - quotient * base with an int base, i.e. arithmetic between multi-limb reps of different signedness (try-compile failed)");
+        }
+        each_limb<D, S>([&](auto Lc) {
+            constexpr int L = decltype(Lc)::value;
+            if constexpr (!c10_is_bad(D, S, L)) {
+                using W = WT<D, S, L>;
+                using NL = std::numeric_limits<W>;
+                vf::counted(true);
+                auto lim = [&](const char* what, bool ok, std::string const& detail) {
+                    vf::validated();
+                    if (ok) vf::outcome("ok_numeric_limits");
+                    else {
+                        vf::outcome("wrong_value");
+                        vf::violation(std::string("limits/") + what, "type", rname<W>() + " numeric_limits::" + what + " " + detail);
+                    }
+                };
+                lim("digits", NL::digits == D, "= " + std::to_string(NL::digits));
+                lim("is_signed", bool(NL::is_signed) == S, "= " + vf::to_s(bool(NL::is_signed)));
+                lim("is_integer", NL::is_integer && NL::is_specialized, "flags");
+                BigW emax = BigW::pow2(D) - BigW(1), elow = S ? -BigW::pow2(D) : BigW(0);
+                W mx{}, lo{}, mn{};
+                vf::Outcome o = vf::run([&] {
+                    mx = NL::max();
+                    lo = NL::lowest();
+                    mn = NL::min();
+                });
+                lim("max", o.ok() && wread(mx) == emax, o.ok() ? "= " + wread(mx).str() + ", expected 2^" + std::to_string(D) + "-1" : o.str());
+                lim("lowest", o.ok() && wread(lo) == elow, o.ok() ? "= " + wread(lo).str() + ", expected " + elow.str() : o.str());
+                if (o.ok() && wread(mn) == BigW(1) && S) {
+                    // CNL convention shared with elastic_integer (whose unit tests assert min() == 1): recorded, not judged
+                    vf::validated();
+                    vf::outcome("limits_min_is_one_cnl_convention_not_lowest");
+                } else
+                    lim("min", o.ok() && (wread(mn) == elow || wread(mn) == BigW(1)), o.ok() ? "= " + wread(mn).str() : o.str());
+            }
+        });
+    }
+
+    auto do_value = [&](BigW const& a, bool only, int only_L) {
+        auto id = [&] { return hex(a); };
+        if (vf::replaying() && !vf::case_selected(id())) return;
+        bool const in_declared = fitsN(a, DB, S);
+        bool const text_too = only || in_vb(a);
+        vf::counted(a.bit_length() > 8 || a.neg);
+        if (vf::want_sample()) vf::sample(id() + " -> -a, ~a, ++, --, shifts, conversions, text for limb types 8/16/32/64");
+        const char* sg = a.neg ? "negative" : "nonneg";
+
+        // f: W (by value) -> result; expect(N, S_of_result) -> BigW; ub_if_wrapped: single-word signed storage would overflow
+        auto unop = [&](std::string const& op, std::string const& cls, auto f, auto expect, BigW const* exact_for_indep) {
+            BigW got[4];
+            bool have[4] = {false, false, false, false};
+            int li = -1;
+            each_limb<D, S>([&](auto Lc) {
+                constexpr int L = decltype(Lc)::value;
+                ++li;
+                if constexpr (!c10_is_bad(D, S, L)) {
+                    if (only && L != only_L) return;
+                    using W = WT<D, S, L>;
+                    using R = std::remove_cvref_t<decltype(f(std::declval<W>()))>;
+                    using RI = rinfo<R>;
+                    bool pre_ok = true, ub = false;
+                    BigW e = expect(RI::N, RI::S, rinfo<W>::N, pre_ok, ub);
+                    if (!pre_ok || (ub && !rinfo<W>::multi && rinfo<W>::S)) {
+                        vf::skip_pre();
+                        return;
+                    }
+                    W const A = wmake<W>(a);
+                    R r{};
+                    vf::Outcome o = vf::run([&] { r = f(A); });
+                    vf::validated();
+                    std::string ls = "/limb" + std::to_string(L);
+                    if (!o.ok()) {
+                        vf::outcome(vf::kind_name(o.kind));
+                        vf::violation(op + "/" + vf::kind_name(o.kind) + "/" + cls + ls, id(), rname<W>() + " a=" + a.str() + ": " + op + " -> " + o.str() + ", expected " + e.str());
+                        return;
+                    }
+                    got[li] = wread(r);
+                    have[li] = true;
+                    if (!(got[li] == e)) {
+                        vf::outcome("wrong_value");
+                        vf::violation(op + "/value/" + cls + ls, id(), rname<W>() + " a=" + a.str() + ": " + op + " = " + got[li].str() + ", expected " + e.str());
+                    } else
+                        vf::outcome("ok_" + op.substr(0, op.find('/')));
+                }
+            });
+            if (!only && in_declared && exact_for_indep && fitsN(*exact_for_indep, DB, S)) {
+                int first = -1;
+                for (int i = 0; i < 4; ++i) {
+                    if (!have[i]) continue;
+                    if (first < 0) first = i;
+                    else if (!(got[i] == got[first])) {
+                        vf::violation("limb_dependence/" + op.substr(0, op.find('/')), id(), "wide_integer<" + std::to_string(D) + "> a=" + a.str() + ": " + op + " = " + got[first].str() + " with " + std::to_string(8 << first) + "-bit limbs but " + got[i].str() + " with " + std::to_string(8 << i) + "-bit limbs");
+                        break;
+                    }
+                }
+            }
+        };
+        auto wrap_of = [](BigW const& exact) {
+            return [exact](int N, bool Sg, int, bool&, bool& ub) {
+                BigW e = wrapN(exact, N, Sg);
+                ub = !(e == exact);
+                return e;
+            };
+        };
+        // result is `ret`, but the object is stepped to `stepped`: overflow of a single-word signed rep is UB
+        auto ret_of = [](BigW const& ret, BigW const& stepped) {
+            return [ret, stepped](int N, bool Sg, int, bool&, bool& ub) {
+                ub = !(wrapN(stepped, N, Sg) == stepped);
+                return wrapN(ret, N, Sg);
+            };
+        };
+        BigW const na = -a, ap1 = a + BigW(1), am1 = a - BigW(1);
+        unop("neg", sg, [](auto t) { return -t; }, wrap_of(na), &na);
+#if C10_HAVE_PUBLIC_NOT
+        {
+            BigW nota = -a - BigW(1);
+            unop("not", sg, [](auto t) { return ~t; }, [&](int N, bool Sg, int, bool&, bool&) { return bitnot(a, N, Sg); }, S ? &nota : nullptr);
+        }
+#endif
+        unop("preinc", sg, [](auto t) { return std::remove_cvref_t<decltype(t)>(++t); }, wrap_of(ap1), &ap1);
+        unop("postinc_result", sg, [](auto t) { return std::remove_cvref_t<decltype(t)>(t++); }, ret_of(a, ap1), &a);
+        unop("postinc_object", sg, [](auto t) { t++; return t; }, wrap_of(ap1), &ap1);
+        unop("predec", sg, [](auto t) { return std::remove_cvref_t<decltype(t)>(--t); }, wrap_of(am1), &am1);
+        unop("postdec_result", sg, [](auto t) { return std::remove_cvref_t<decltype(t)>(t--); }, ret_of(a, am1), &a);
+        unop("postdec_object", sg, [](auto t) { t--; return t; }, wrap_of(am1), &am1);
+        for (int c : counts) {
+            std::string cs = std::to_string(c);
+            BigW const sl = a.shl(c), sr = floor_shr(a, c);
+            std::string cls = std::string(sg) + (c % 8 == 0 ? "/count_multiple_of_8" : "/count_with_bit_part");
+            unop("shl/" + cs, cls, [c](auto t) { return t << c; }, [&](int N, bool Sg, int NW, bool& pre, bool& ub) {
+                pre = c < NW;
+                BigW e = wrapN(sl, N, Sg);
+                ub = !(e == sl) || a.neg;
+                return e; }, &sl);
+            unop("shr/" + cs, cls, [c](auto t) { return t >> c; }, [&](int N, bool Sg, int NW, bool& pre, bool&) {
+                pre = c < NW;
+                return wrapN(sr, N, Sg); }, &sr);
+        }
+        // conversions to built-in integers: value preserved when representable, else reduced mod 2^k
+        for_types(WideToInts{}, [&](auto ti) {
+            using X = typename decltype(ti)::type;
+            bool fits = std::is_same_v<X, bool> ? true : a.fits(int(sizeof(X) * 8), vals::is_signed_v<X>);
+            unop("to_int/" + vf::tn<X>(), std::string(fits ? "in_range/" : "narrowing/") + sg, [](auto t) { return static_cast<X>(t); }, [&](int, bool, int, bool&, bool&) {
+                if constexpr (std::is_same_v<X, bool>) return BigW(int(!a.is_zero()));
+                else return wrapN(a, int(sizeof(X) * 8), vals::is_signed_v<X>); }, &a);
+        });
+        // to floating point
+        for_types(types<float, double, long double>{}, [&](auto ti) {
+            using F = typename decltype(ti)::type;
+            FloatRef<F> e = big_to_float<F>(a);
+            F const away = std::nextafter(e.toward_zero, a.neg ? -std::numeric_limits<F>::infinity() : std::numeric_limits<F>::infinity());
+            F gotf[4];
+            bool have[4] = {false, false, false, false};
+            int li = -1;
+            each_limb<D, S>([&](auto Lc) {
+                constexpr int L = decltype(Lc)::value;
+                ++li;
+                if constexpr (!c10_is_bad(D, S, L)) {
+                    if (only && L != only_L) return;
+                    using W = WT<D, S, L>;
+                    W const A = wmake<W>(a);
+                    F g = 0;
+                    vf::Outcome o = vf::run([&] { g = static_cast<F>(A); });
+                    vf::validated();
+                    std::string ls = "/limb" + std::to_string(L);
+                    if (!o.ok()) {
+                        vf::outcome(vf::kind_name(o.kind));
+                        vf::violation("to_float/" + std::string(vf::kind_name(o.kind)) + "/" + vf::tn<F>() + ls, id(), rname<W>() + " a=" + a.str() + " static_cast<" + vf::tn<F>() + "> -> " + o.str());
+                        return;
+                    }
+                    gotf[li] = g;
+                    have[li] = true;
+                    if (!(g == e.nearest)) {
+                        vf::outcome("wrong_value");
+                        const char* how = e.exact ? "exactly_representable" : (e.overflow ? "beyond_largest_finite" : (g == e.toward_zero ? "inexact/adjacent_toward_zero_instead_of_nearest" : (g == away ? "inexact/adjacent_away_from_zero_instead_of_nearest" : "inexact/not_adjacent")));
+                        vf::violation(std::string("to_float/value/") + how + "/" + vf::tn<F>() + ls, id(), rname<W>() + " a=" + hex(a) + " static_cast<" + vf::tn<F>() + "> = " + vf::to_s(g) + ", correctly rounded " + vf::to_s(e.nearest) + ", truncated " + vf::to_s(e.toward_zero));
+                    } else
+                        vf::outcome(e.exact ? "ok_to_float_exact" : (e.overflow ? "ok_to_float_overflows_to_inf" : "ok_to_float_correctly_rounded"));
+                }
+            });
+            if (!only) {
+                int first = -1;
+                for (int i = 0; i < 4; ++i) {
+                    if (!have[i]) continue;
+                    if (first < 0) first = i;
+                    else if (!(gotf[i] == gotf[first])) {
+                        vf::violation("limb_dependence/to_float/" + vf::tn<F>(), id(), "wide_integer<" + std::to_string(D) + "> a=" + hex(a) + " static_cast<" + vf::tn<F>() + "> = " + vf::to_s(gotf[first]) + " with " + std::to_string(8 << first) + "-bit limbs but " + vf::to_s(gotf[i]) + " with " + std::to_string(8 << i) + "-bit limbs");
+                        break;
+                    }
+                }
+            }
+        });
+        // decimal text
+        if (text_too) {
+            std::string const expect = a.str();
+            each_limb<D, S>([&](auto Lc) {
+                constexpr int L = decltype(Lc)::value;
+                if constexpr (!c10_is_bad(D, S, L)) {
+                    if (only && L != only_L) return;
+                    using W = WT<D, S, L>;
+                    W const A = wmake<W>(a);
+                    std::string ls = "/limb" + std::to_string(L);
+                    if (!rinfo<W>::multi && S && a == -BigW::pow2(rinfo<W>::N - 1)) {
+                        vf::skip_pre();  // single-word rep: text of the most negative built-in value is C13's subject (documented unsupported)
+                    } else {
+                        std::string got;
+                        vf::Outcome o = vf::run([&] {
+                            std::ostringstream os;
+                            os << A;
+                            got = os.str();
+                        });
+                        vf::validated();
+                        if (!o.ok() || got != expect) {
+                            vf::outcome(o.ok() ? "wrong_value" : vf::kind_name(o.kind));
+                            vf::violation(std::string("text/ostream/") + (o.ok() ? "value" : vf::kind_name(o.kind)) + "/" + sg + ls, id(), rname<W>() + " a=" + expect + " operator<< " + (o.ok() ? "wrote \"" + got + "\"" : o.str()));
+                        } else
+                            vf::outcome("ok_text_ostream");
+                    }
+                    // cnl::to_chars: documented not to support values below -max
+                    constexpr bool have_to_chars = S ? bool(C10_HAVE_TO_CHARS_SIGNED) : bool(C10_HAVE_TO_CHARS_UNSIGNED);
+                    if constexpr (!have_to_chars) {
+                    } else if (S && a < -(BigW::pow2(D) - BigW(1))) {
+                        vf::skip_pre();
+                    } else {
+                        static char buf[1024];
+                        std::string got;
+                        bool ec_ok = false;
+                        vf::Outcome o = vf::run([&] {
+                            auto r = cnl::to_chars(buf, buf + sizeof buf - 1, A);
+                            ec_ok = r.ec == std::errc{} && r.ptr != nullptr;
+                            if (ec_ok) got.assign(buf, r.ptr);
+                        });
+                        vf::validated();
+                        if (!o.ok() || !ec_ok || got != expect) {
+                            vf::outcome(o.ok() ? "wrong_value" : vf::kind_name(o.kind));
+                            vf::violation(std::string("text/to_chars/") + (o.ok() ? (ec_ok ? "value" : "error_code") : vf::kind_name(o.kind)) + "/" + sg + ls, id(), rname<W>() + " a=" + expect + " cnl::to_chars " + (o.ok() ? (ec_ok ? "wrote \"" + got + "\"" : "reported an error with a 1023-byte buffer") : o.str()));
+                        } else
+                            vf::outcome("ok_text_to_chars");
+                    }
+                }
+            });
+        }
+    };
+
+    for (BigW const& a : VA) {
+        if (!vf::my_row()) continue;
+        do_value(a, false, 0);
+    }
+    for (BigW const& a : float_hazards(DB, S)) {
+        if (!vf::my_row()) continue;
+        if (!std::binary_search(VA.begin(), VA.end(), a, BigWLess())) do_value(a, false, 0);
+    }
+    each_limb<D, S>([&](auto Lc) {
+        constexpr int L = decltype(Lc)::value;
+        if constexpr (!c10_is_bad(D, S, L)) {
+            for (BigW const& a : storage_extremes<D, S, L>()) {
+                if (!vf::my_row()) continue;
+                do_value(a, true, L);
+            }
+        }
+    });
+
+    // ---- from built-in integers and floating point
+    each_limb<D, S>([&](auto Lc) {
+        constexpr int L = decltype(Lc)::value;
+        if constexpr (!c10_is_bad(D, S, L)) {
+            using W = WT<D, S, L>;
+            using WI = rinfo<W>;
+            for_types(WideFromInts{}, [&](auto ti) {
+                using X = typename decltype(ti)::type;
+                for (X v : vals::lattice<X>(4)) {
+                    if (!vf::my_row()) continue;
+                    std::string id = "from_" + vf::tn<X>() + ":" + vf::to_s(v) + ":limb" + std::to_string(L);
+                    if (vf::replaying() && !vf::case_selected(id)) continue;
+                    BigW bv = v < 0 ? -BigW(u128(0) - u128(v)) : BigW(u128(v));
+                    BigW e = wrapN(bv, WI::N, WI::S);
+                    bool fits = e == bv;
+                    vf::counted(!fits || bv.neg);
+                    W r{};
+                    vf::Outcome o = vf::run([&] { r = W(v); });
+                    vf::validated();
+                    std::string cls = std::string(fits ? "in_range" : "narrowing") + (bv.neg ? "/negative" : "/nonneg") + "/limb" + std::to_string(L);
+                    if (!o.ok() || !(wread(r) == e)) {
+                        vf::outcome(o.ok() ? "wrong_value" : vf::kind_name(o.kind));
+                        vf::violation(std::string("from_int/") + (o.ok() ? "value" : vf::kind_name(o.kind)) + "/" + cls, id, rname<W>() + "(" + vf::tn<X>() + " " + vf::to_s(v) + ") " + (o.ok() ? "= " + wread(r).str() : "-> " + o.str()) + ", expected " + e.str());
+                    } else
+                        vf::outcome(fits ? "ok_from_int_value_preserved" : "ok_from_int_reduced_mod_2^N");
+                }
+            });
+            for_types(types<float, double, long double>{}, [&](auto ti) {
+                using F = typename decltype(ti)::type;
+                for (F x : float_probe_values<F>(WI::N)) {
+                    if (!vf::my_row()) continue;
+                    std::string id = "from_" + vf::tn<F>() + ":" + vf::to_s(x) + ":limb" + std::to_string(L);
+                    if (vf::replaying() && !vf::case_selected(id)) continue;
+                    bool is_int;
+                    BigW t = float_trunc(x, is_int);
+                    if (!t.fits(WI::N, WI::S) || (!WI::S && x < 0)) {
+                        vf::skip_pre();
+                        continue;
+                    }
+                    vf::counted(t.bit_length() > 64);
+                    W r{};
+                    vf::Outcome o = vf::run([&] { r = W(x); });
+                    vf::validated();
+                    std::string cls = std::string(is_int ? "integer_valued" : "fraction_truncates") + "/" + vf::tn<F>() + "/limb" + std::to_string(L);
+                    if (!o.ok() || !(wread(r) == t)) {
+                        vf::outcome(o.ok() ? "wrong_value" : vf::kind_name(o.kind));
+                        vf::violation(std::string("from_float/") + (o.ok() ? "value" : vf::kind_name(o.kind)) + "/" + cls, id, rname<W>() + "(" + vf::tn<F>() + " " + vf::to_s(x) + ") " + (o.ok() ? "= " + wread(r).str() : "-> " + o.str()) + ", expected " + t.str());
+                    } else
+                        vf::outcome(is_int ? "ok_from_float_integer" : "ok_from_float_truncated");
+                }
+            });
+        }
+    });
+}
+
+// ---------------------------------------------------------------------------------------------
+// mixed operands: wide_integer op built-in integer, wide_integer of different widths, conversions
+// between widths and signedness. Result digits = max of the operand digits, signed if either is.
+
+struct IllFormed {
+    const char* name;
+    const char* expr;
+};
+#if !defined(C10_ILL_FORMED)
+#define C10_ILL_FORMED {"not", "~wide_integer<200,int>{}"},
+#endif
+constexpr IllFormed c10_ill_formed[] = {C10_ILL_FORMED{nullptr, nullptr}};
+
+#if VF_PART == 30000
+[[gnu::noinline]] static void prog_wide_mixed()
+{
+    if (!vf::begin("wide_mixed", false)) return;
+    using W = cnl::wide_integer<200, int>;
+    using U = cnl::wide_integer<200, unsigned>;
+    using W100 = cnl::wide_integer<100, int>;  // single-word rep under gnu++20
+    using W300 = cnl::wide_integer<300, int>;
+    using U300 = cnl::wide_integer<300, unsigned>;
+    std::set<std::string> type_reported;
+
+    if (vf::my_row() && (!vf::replaying() || vf::case_selected("type"))) {
+        for (auto const& f : c10_ill_formed) {
+            if (!f.name) break;
+            vf::counted(true);
+            vf::outcome("expression_does_not_compile");
+            vf::violation(std::string("ill_formed/") + f.name, "type", std::string("does not compile against this tree: ") + f.expr);
+        }
+    }
+
+    auto check_type = [&](std::string const& op, auto tag, int digits, bool sg, std::string const& what) {
+        using R = typename decltype(tag)::type;
+        if constexpr (!std::is_same_v<R, bool>) {
+            if (rinfo<R>::digits != digits || rinfo<R>::S != sg) {
+                if (type_reported.insert(op + what).second) vf::violation("mixed/result_type/" + op, "type", what + ": result is " + rname<R>() + ", expected digits " + std::to_string(digits) + (sg ? " signed" : " unsigned"));
+            }
+        }
+    };
+    // kind: 0 arithmetic (exact given), 1 and, 2 or, 3 xor
+    auto mix = [&](std::string const& op, std::string const& cls, std::string const& id, auto const& l, auto const& r, BigW const& lv, BigW const& rv, auto f, int kind, BigW const& exact, int digits, bool sg, std::string const& what) {
+        using R = decltype(f(l, r));
+        using RI = rinfo<R>;
+        check_type(op, std::type_identity<R>{}, digits, sg, what);
+        BigW e = kind == 0 ? wrapN(exact, RI::N, RI::S) : bitop(lv, rv, RI::N, RI::S, kind == 1 ? B_AND : kind == 2 ? B_OR : B_XOR);
+        if (kind == 0 && !(e == exact) && !RI::multi && RI::S) {
+            vf::skip_pre();
+            return;
+        }
+        R g{};
+        vf::Outcome o = vf::run([&] { g = f(l, r); });
+        vf::validated();
+        if (!o.ok() || !(wread(g) == e)) {
+            vf::outcome(o.ok() ? "wrong_value" : vf::kind_name(o.kind));
+            vf::violation("mixed/" + op + "/" + (o.ok() ? "value" : vf::kind_name(o.kind)) + "/" + cls, id, what + " l=" + lv.str() + " r=" + rv.str() + ": l " + op + " r " + (o.ok() ? "= " + wread(g).str() : "-> " + o.str()) + ", expected " + e.str());
+        } else
+            vf::outcome("ok_mixed_" + op);
+    };
+    auto mixcmp = [&](std::string const& cls, std::string const& id, auto const& l, auto const& r, BigW const& lv, BigW const& rv, std::string const& what, auto have_rel, auto have_eq) {
+        int c = BigW::cmp(lv, rv);
+        auto one = [&](const char* op, auto f, bool expect) {
+            bool g = false;
+            vf::Outcome o = vf::run([&] { g = f(l, r); });
+            vf::validated();
+            if (!o.ok() || g != expect) {
+                vf::outcome(o.ok() ? "wrong_value" : vf::kind_name(o.kind));
+                vf::violation(std::string("mixed/cmp_") + op + "/" + (o.ok() ? "value" : vf::kind_name(o.kind)) + "/" + cls, id, what + " l=" + lv.str() + " r=" + rv.str() + ": l " + op + " r " + (o.ok() ? "= " + vf::to_s(g) : "-> " + o.str()) + ", expected " + vf::to_s(expect));
+            } else
+                vf::outcome("ok_mixed_comparison");
+        };
+        if constexpr (decltype(have_rel)::value) {
+            one("lt", [](auto const& x, auto const& y) { return x < y; }, c < 0);
+            one("le", [](auto const& x, auto const& y) { return x <= y; }, c <= 0);
+            one("gt", [](auto const& x, auto const& y) { return x > y; }, c > 0);
+            one("ge", [](auto const& x, auto const& y) { return x >= y; }, c >= 0);
+        }
+        if constexpr (decltype(have_eq)::value) {
+            one("eq", [](auto const& x, auto const& y) { return x == y; }, c == 0);
+            one("ne", [](auto const& x, auto const& y) { return x != y; }, c != 0);
+        }
+    };
+
+    auto with_builtin = [&](auto wtag, const char* wname, std::vector<BigW> const& VW) {
+        using WW = typename decltype(wtag)::type;
+        constexpr bool WS = rinfo<WW>::S;
+        for (BigW const& a : VW) {
+            if (!vf::my_row()) continue;
+            WW const A = wmake<WW>(a);
+            for_types(types<int, unsigned, long, unsigned long>{}, [&](auto ti) {
+                using X = typename decltype(ti)::type;
+                for (X x : vals::lattice<X>(8)) {
+                    std::string id = std::string(wname) + ":" + hex(a) + "," + vf::tn<X>() + ":" + vf::to_s(x);
+                    if (vf::replaying() && !vf::case_selected(id)) continue;
+                    BigW xv = x < 0 ? -BigW(u128(0) - u128(x)) : BigW(u128(x));
+                    vf::counted(!a.is_zero() && x != 0);
+                    constexpr int dg = 200;
+                    constexpr bool sg = WS || vals::is_signed_v<X>;
+                    std::string what = std::string(wname) + " op " + vf::tn<X>();
+                    std::string cls = std::string(WS ? "wide_signed" : "wide_unsigned") + "/builtin_" + vf::tn<X>() + (a.neg ? "/wide_negative" : "") + (xv.neg ? "/builtin_negative" : "");
+                    // a negative operand entering an unsigned result is outside "common signedness"
+                    if (!sg && (a.neg || xv.neg)) {
+                        vf::skip_pre();
+                        continue;
+                    }
+                    mix("add", cls, id, A, x, a, xv, [](auto const& p, auto const& q) { return p + q; }, 0, a + xv, dg, sg, what);
+                    mix("sub", cls, id, A, x, a, xv, [](auto const& p, auto const& q) { return p - q; }, 0, a - xv, dg, sg, what);
+                    mix("mul", cls, id, A, x, a, xv, [](auto const& p, auto const& q) { return p * q; }, 0, a * xv, dg, sg, what);
+                    mix("and", cls, id, A, x, a, xv, [](auto const& p, auto const& q) { return p & q; }, 1, BigW(0), dg, sg, what);
+#if C10_HAVE_OR_XOR_BUILTIN
+                    mix("or", cls, id, A, x, a, xv, [](auto const& p, auto const& q) { return p | q; }, 2, BigW(0), dg, sg, what);
+                    mix("xor", cls, id, A, x, a, xv, [](auto const& p, auto const& q) { return p ^ q; }, 3, BigW(0), dg, sg, what);
+#endif
+                    mix("rsub", cls, id, x, A, xv, a, [](auto const& p, auto const& q) { return p - q; }, 0, xv - a, dg, sg, std::string(vf::tn<X>()) + " op " + wname);
+                    mix("radd", cls, id, x, A, xv, a, [](auto const& p, auto const& q) { return p + q; }, 0, xv + a, dg, sg, std::string(vf::tn<X>()) + " op " + wname);
+                    if (x != 0) {
+                        BigW qv, rv;
+                        BigW::divmod(a, xv, qv, rv);
+                        mix("div", cls, id, A, x, a, xv, [](auto const& p, auto const& q) { return p / q; }, 0, qv, dg, sg, what);
+                        mix("mod", cls + (sizeof(X) <= 4 && !vals::is_signed_v<X> ? "/divisor_type_not_wider_than_limb" : ""), id, A, x, a, xv, [](auto const& p, auto const& q) { return p % q; }, 0, rv, dg, sg, what);
+                    } else
+                        vf::skip_pre();
+                    if (!a.is_zero()) {
+                        BigW qv, rv;
+                        BigW::divmod(xv, a, qv, rv);
+                        mix("rdiv", cls, id, x, A, xv, a, [](auto const& p, auto const& q) { return p / q; }, 0, qv, dg, sg, std::string(vf::tn<X>()) + " op " + wname);
+                        mix("rmod", cls, id, x, A, xv, a, [](auto const& p, auto const& q) { return p % q; }, 0, rv, dg, sg, std::string(vf::tn<X>()) + " op " + wname);
+                    }
+                    // comparison of mathematical values only where both have the common signedness
+                    if (WS == vals::is_signed_v<X>) {
+                        mixcmp(cls, id, A, x, a, xv, what, std::true_type{}, std::true_type{});
+                        mixcmp(cls, id, x, A, xv, a, std::string(vf::tn<X>()) + " cmp " + wname, std::true_type{}, std::true_type{});
+                    }
+                }
+            });
+        }
+    };
+    std::vector<BigW> const VS = common_values(201, true, 1, true), VU = common_values(200, false, 1, true);
+    with_builtin(std::type_identity<W>{}, "wide_integer<200,int>", VS);
+    with_builtin(std::type_identity<U>{}, "wide_integer<200,unsigned>", VU);
+
+    // wide_integer<100> (single word) with wide_integer<200>; wide_integer<200> with wide_integer<300>
+    std::vector<BigW> const V100 = common_values(101, true, 1, true), V300 = common_values(301, true, 1, true);
+    for (BigW const& a : VS) {
+        if (!vf::my_row()) continue;
+        W const A = wmake<W>(a);
+        for (BigW const& b : V100) {
+            std::string id = "w200:" + hex(a) + ",w100:" + hex(b);
+            if (vf::replaying() && !vf::case_selected(id)) continue;
+            W100 const B = wmake<W100>(b);
+            vf::counted(!a.is_zero() && !b.is_zero());
+            std::string cls = "wide200_wide100";
+            std::string what = "wide_integer<200> op wide_integer<100>", rwhat = "wide_integer<100> op wide_integer<200>";
+            mix("add", cls, id, A, B, a, b, [](auto const& p, auto const& q) { return p + q; }, 0, a + b, 200, true, what);
+            mix("sub", cls, id, A, B, a, b, [](auto const& p, auto const& q) { return p - q; }, 0, a - b, 200, true, what);
+            mix("rsub", cls, id, B, A, b, a, [](auto const& p, auto const& q) { return p - q; }, 0, b - a, 200, true, rwhat);
+            mix("mul", cls, id, A, B, a, b, [](auto const& p, auto const& q) { return p * q; }, 0, a * b, 200, true, what);
+            mix("rmul", cls, id, B, A, b, a, [](auto const& p, auto const& q) { return p * q; }, 0, a * b, 200, true, rwhat);
+            mix("and", cls, id, A, B, a, b, [](auto const& p, auto const& q) { return p & q; }, 1, BigW(0), 200, true, what);
+            if (!b.is_zero()) {
+                BigW qv, rv;
+                BigW::divmod(a, b, qv, rv);
+                mix("div", cls, id, A, B, a, b, [](auto const& p, auto const& q) { return p / q; }, 0, qv, 200, true, what);
+                mix("mod", cls, id, A, B, a, b, [](auto const& p, auto const& q) { return p % q; }, 0, rv, 200, true, what);
+            }
+            if (!a.is_zero()) {
+                BigW qv, rv;
+                BigW::divmod(b, a, qv, rv);
+                mix("rdiv", cls, id, B, A, b, a, [](auto const& p, auto const& q) { return p / q; }, 0, qv, 200, true, rwhat);
+                mix("rmod", cls, id, B, A, b, a, [](auto const& p, auto const& q) { return p % q; }, 0, rv, 200, true, rwhat);
+            }
+            mixcmp(cls, id, A, B, a, b, "wide_integer<200> cmp wide_integer<100>", std::true_type{}, std::true_type{});
+            mixcmp(cls, id, B, A, b, a, "wide_integer<100> cmp wide_integer<200>", std::true_type{}, std::true_type{});
+        }
+        for (BigW const& b : V300) {
+            std::string id = "w200:" + hex(a) + ",w300:" + hex(b);
+            if (vf::replaying() && !vf::case_selected(id)) continue;
+            W300 const B = wmake<W300>(b);
+            vf::counted(true);
+            std::string cls = std::string("wide200_wide300/") + (fitsN(b, 224, true) ? "wider_operand_fits_narrower_storage" : "wider_operand_exceeds_narrower_storage");
+            mixcmp(cls, id, A, B, a, b, "wide_integer<200> cmp wide_integer<300>", std::bool_constant<bool(C10_HAVE_MIXED_WIDTH_CMP_REL)>{}, std::bool_constant<bool(C10_HAVE_MIXED_WIDTH_CMP_EQ)>{});
+            mixcmp(cls, id, B, A, b, a, "wide_integer<300> cmp wide_integer<200>", std::bool_constant<bool(C10_HAVE_MIXED_WIDTH_CMP_REL)>{}, std::bool_constant<bool(C10_HAVE_MIXED_WIDTH_CMP_EQ)>{});
+#if C10_HAVE_MIXED_WIDTH_ARITH
+            mix("add", cls, id, A, B, a, b, [](auto const& p, auto const& q) { return p + q; }, 0, a + b, 300, true, "wide_integer<200> op wide_integer<300>");
+            mix("rsub", cls, id, B, A, b, a, [](auto const& p, auto const& q) { return p - q; }, 0, b - a, 300, true, "wide_integer<300> op wide_integer<200>");
+            mix("mul", cls, id, A, B, a, b, [](auto const& p, auto const& q) { return p * q; }, 0, a * b, 300, true, "wide_integer<200> op wide_integer<300>");
+#endif
+        }
+    }
+#if C10_HAVE_MIXED_SIGN_ARITH
+    for (BigW const& a : VS) {
+        if (!vf::my_row()) continue;
+        W const A = wmake<W>(a);
+        for (BigW const& b : VU) {
+            std::string id = "w200:" + hex(a) + ",u200:" + hex(b);
+            if (vf::replaying() && !vf::case_selected(id)) continue;
+            U const B = wmake<U>(b);
+            vf::counted(true);
+            mix("add", "signed_unsigned", id, A, B, a, b, [](auto const& p, auto const& q) { return p + q; }, 0, a + b, 200, true, "wide_integer<200,int> op wide_integer<200,unsigned>");
+            mix("mul", "signed_unsigned", id, A, B, a, b, [](auto const& p, auto const& q) { return p * q; }, 0, a * b, 200, true, "wide_integer<200,int> op wide_integer<200,unsigned>");
+        }
+    }
+#endif
+
+    // conversions between widths and signedness: value reduced to the target's storage
+    auto conv = [&](auto from_tag, auto to_tag, std::vector<BigW> const& V, const char* what) {
+        using Fm = typename decltype(from_tag)::type;
+        using To = typename decltype(to_tag)::type;
+        for (BigW const& a : V) {
+            if (!vf::my_row()) continue;
+            std::string id = std::string(what) + ":" + hex(a);
+            if (vf::replaying() && !vf::case_selected(id)) continue;
+            Fm const A = wmake<Fm>(a);
+            BigW e = wrapN(a, rinfo<To>::N, rinfo<To>::S);
+            bool fits = e == a;
+            if (!fits && !rinfo<To>::multi) {
+                // narrowing into a single-word rep: static_cast of the limb class to the built-in, modular
+            }
+            vf::counted(!fits);
+            To g{};
+            vf::Outcome o = vf::run([&] { g = static_cast<To>(A); });
+            vf::validated();
+            std::string cls = std::string(fits ? "value_preserved" : "reduced") + (a.neg ? "/negative" : "/nonneg");
+            if (!o.ok() || !(wread(g) == e)) {
+                vf::outcome(o.ok() ? "wrong_value" : vf::kind_name(o.kind));
+                vf::violation(std::string("mixed/convert/") + what + "/" + (o.ok() ? "value" : vf::kind_name(o.kind)) + "/" + cls, id, std::string(what) + " a=" + a.str() + (o.ok() ? " = " + wread(g).str() : " -> " + o.str()) + ", expected " + e.str());
+            } else
+                vf::outcome(fits ? "ok_convert_value_preserved" : "ok_convert_reduced_mod_2^N");
+        }
+    };
+    conv(std::type_identity<W>{}, std::type_identity<W300>{}, VS, "wide200s_to_wide300s");
+    conv(std::type_identity<W300>{}, std::type_identity<W>{}, V300, "wide300s_to_wide200s");
+    conv(std::type_identity<W>{}, std::type_identity<U>{}, VS, "wide200s_to_wide200u");
+    conv(std::type_identity<U>{}, std::type_identity<W>{}, VU, "wide200u_to_wide200s");
+    conv(std::type_identity<W>{}, std::type_identity<U300>{}, VS, "wide200s_to_wide300u");
+    conv(std::type_identity<U300>{}, std::type_identity<W>{}, common_values(300, false, 1, true), "wide300u_to_wide200s");
+    conv(std::type_identity<W100>{}, std::type_identity<W>{}, V100, "wide100s_to_wide200s");
+    conv(std::type_identity<W>{}, std::type_identity<W100>{}, VS, "wide200s_to_wide100s");
+}
+#endif
+
 #if VF_PART >= 10000 && VF_PART < 20000
 static void gB() { prog_wide_binary<(VF_PART - 10000) / 2, ((VF_PART - 10000) % 2) != 0>(); }
 VF_GROUP(gB);
+#elif VF_PART >= 20000 && VF_PART < 30000
+static void gU() { prog_wide_unary<(VF_PART - 20000) / 2, ((VF_PART - 20000) % 2) != 0>(); }
+VF_GROUP(gU);
+#elif VF_PART == 30000
+static void gM() { prog_wide_mixed(); }
+VF_GROUP(gM);
 #endif
